@@ -120,6 +120,15 @@ def build(variants=None, quiet=False):
         for v in todo:
             out = os.path.join(root, v)
             cc, _, _, linkf = VARIANTS[v]
+            if v == "work":
+                # the library's code goes into a section of its own ("libtext"): the linker then defines __start_libtext and
+                # __stop_libtext, and the single-step scheduler of world "par" knows which instructions are library instructions
+                for o in sorted(glob.glob(os.path.join(out, "lib_*.o"))):
+                    rc, txt, cmd = run_cmd(["objcopy", "--rename-section", ".text=libtext", o])
+                    if rc != 0:
+                        print("OBJCOPY FAILED:", " ".join(cmd)); print(txt)
+                        shutil.rmtree(root, ignore_errors=True)
+                        sys.exit(2)
             objs = sorted(glob.glob(os.path.join(out, "*.o")))
             rc, o, cmd = run_cmd([cc] + linkf + objs + [WRAPS, "-lm", "-o", os.path.join(out, "simrun.tmp")])
             if rc != 0:
